@@ -130,13 +130,13 @@ type c06RunResult struct {
 	tree tree
 }
 
-func (s *c06State) run(bin, tag string, env []string, flags []string, patterns []string) c06RunResult {
+func (s *c06State) run(bin, tag string, env []string, flags []string, patterns []string, npkgs int) c06RunResult {
 	out := s.outDir(tag)
 	args := append([]string{"-out", out}, flags...)
 	args = append(args, patterns...)
 	iv := runGoose(bin, s.dir, env, args...)
 	s.r.Count("goose_invocations", 1)
-	s.r.Count("packages_translated_in_invocations_total", int64(len(patterns)))
+	s.r.Count("packages_in_invocations_total", int64(npkgs))
 	t := readTree(out)
 	os.RemoveAll(out)
 	return c06RunResult{iv, t}
@@ -272,8 +272,8 @@ func (s *c06State) compareWithSolo(fs c06FlagSet, group []*c06Pkg, got c06RunRes
 var raceBlockRe = regexp.MustCompile(`(?s)WARNING: DATA RACE\n.*?\n==================`)
 var raceFrameRe = regexp.MustCompile(`(?m)^\s+(\S+)\(\)\n\s+(\S+):(\d+)`)
 
-// raceSig reduces a race report to the pair of outermost goose frames
-// (first goose frame of each of the two conflicting accesses).
+// raceSig reduces a race report to the pair of outermost goose frames of the
+// two conflicting accesses; reports without any goose frame are not counted.
 func raceSig(block string) (string, bool) {
 	parts := regexp.MustCompile(`(?m)^(Previous |)(?:[Rr]ead|[Ww]rite|[Aa]tomic \w+) (?:at|of) .*$`).Split(block, -1)
 	var frames []string
@@ -282,15 +282,18 @@ func raceSig(block string) (string, bool) {
 		if i := strings.Index(part, "\nGoroutine "); i >= 0 {
 			part = part[:i]
 		}
+		last := ""
 		for _, m := range raceFrameRe.FindAllStringSubmatch(part, -1) {
 			if strings.Contains(m[1], "github.com/goose-lang/goose") || strings.HasPrefix(m[2], "/repo/") {
 				fn := m[1]
 				if i := strings.LastIndex(fn, "/"); i >= 0 {
 					fn = fn[i+1:]
 				}
-				frames = append(frames, fn)
-				break
+				last = fn // keep going: the outermost goose frame of this stack wins
 			}
+		}
+		if last != "" {
+			frames = append(frames, last)
 		}
 	}
 	if len(frames) == 0 {
@@ -361,7 +364,7 @@ func runC06(r *core.Run) (bool, string) {
 	reps := r.Pick(6, 50)
 	refs := map[string]c06RunResult{}
 	for _, fs := range c06FlagSets {
-		ref := s.run(s.bin, "ref", nil, fs.Flags, allPatterns)
+		ref := s.run(s.bin, "ref", nil, fs.Flags, allPatterns, len(s.pkgs))
 		if cr, why := ref.iv.crashed(); cr {
 			wg.Wait()
 			r.Inconclusive("reference-run-crashed")
@@ -386,7 +389,7 @@ func runC06(r *core.Run) (bool, string) {
 	core.Parallel(len(jobs), 4, func(i int) {
 		j := jobs[i]
 		env := []string{fmt.Sprintf("GOMAXPROCS=%d", j.gmp)}
-		got := s.run(s.bin, "rep", env, j.fs.Flags, allPatterns)
+		got := s.run(s.bin, "rep", env, j.fs.Flags, allPatterns, len(s.pkgs))
 		r.Count("goose_invocations_all_packages", 1)
 		r.Distinct(fmt.Sprintf("all|%s|gomaxprocs=%d", j.fs.Name, j.gmp))
 		s.compareRuns(fmt.Sprintf("repetition %d of all %d packages with GOMAXPROCS=%d, flags %v", j.rep, len(s.pkgs), j.gmp, j.fs.Flags), refs[j.fs.Name], got)
@@ -411,7 +414,7 @@ func runC06(r *core.Run) (bool, string) {
 	soloCrash := 0
 	core.Parallel(len(sjobs), 16, func(i int) {
 		j := sjobs[i]
-		got := s.run(s.bin, "solo", nil, j.fs.Flags, []string{j.p.Path})
+		got := s.run(s.bin, "solo", nil, j.fs.Flags, []string{j.p.Path}, 1)
 		f, has := got.tree[outputRel(j.p.Path)]
 		so := &c06Solo{file: f, has: has, stderr: got.iv.res.Stderr, code: got.iv.Code}
 		smu.Lock()
@@ -462,7 +465,7 @@ func runC06(r *core.Run) (bool, string) {
 			pats = append(pats, pat)
 			key = append(key, p.Path)
 		}
-		got := s.run(s.bin, "group", []string{fmt.Sprintf("GOMAXPROCS=%d", j.gmp)}, j.fs.Flags, pats)
+		got := s.run(s.bin, "group", []string{fmt.Sprintf("GOMAXPROCS=%d", j.gmp)}, j.fs.Flags, pats, len(pats))
 		r.Count("regrouped_invocations", 1)
 		r.Count("packages_in_regrouped_invocations", int64(len(pats)))
 		r.Distinct(fmt.Sprintf("group|%s|gomaxprocs=%d|%s", j.fs.Name, j.gmp, strings.Join(key, ",")))
@@ -486,7 +489,7 @@ func runC06(r *core.Run) (bool, string) {
 		fs := c06FlagSets[i%2]
 		gmp := []int{16, 4, 16, 2, 8}[i%5]
 		env := []string{fmt.Sprintf("GOMAXPROCS=%d", gmp), fmt.Sprintf("GORACE=halt_on_error=0 log_path=%s", filepath.Join(raceDir, fmt.Sprintf("run%03d", i)))}
-		got := s.run(raceBin, "race", env, fs.Flags, allPatterns)
+		got := s.run(raceBin, "race", env, fs.Flags, allPatterns, len(s.pkgs))
 		r.Count("race_build_invocations", 1)
 		r.Distinct(fmt.Sprintf("race|%s|gomaxprocs=%d", fs.Name, gmp))
 		if got.iv.res.TimedOut {
